@@ -939,11 +939,23 @@ def replay(ctx, data):
 
 
 META["level_text"] = (
-    "Machine-checked Coq theorems about an executable model of the trees package (BFS of edge_sp/face_sp/cell_sp with "
-    "its pair queue and seen-at-pop test, children/edges derivation, traverse in both pop disciplines, forests, Kruskal "
-    "over the abstract partition + orientation BFS), whose admissibility tests, loop tests, pop disciplines, weight "
-    "selector, sort direction and forest call plumbing are regenerated from the source on every run. "
-    "Proved for all graphs / roots / exclusion sets / weights: see Props.v (each theorem says full or _partial). "
-    "The model is tied to the code by kernel-evaluated correspondence batches that accept the implementation's trees "
-    "through Gallina checkers proved sound (is_bfs_tree, is_tree_table, is_spanning_forest + equal weight)."
+    "Machine-checked Coq theorems, all closed under the global context (no axiom), about an executable model of "
+    "mouette/processing/trees: the BFS of edge_sp/face_sp/cell_sp with its (parent, child) pair queue and seen-at-pop "
+    "test, the children/edges derivation, traverse with both pop sides, the forests, Kruskal over the abstract "
+    "partition and its orientation pass. Every decision of that code (admissibility tests incl. _avoid_edge, loop "
+    "tests, pop sides, distance update, weight selector, candidate filter, sort direction, accept test, forest call "
+    "plumbing) is regenerated from the source on every run (Gen.v) and its meaning is itself a theorem "
+    "(C10_generated_decisions, C10_admissibility). FULL, for all graphs / roots / exclusion sets / integer weights: "
+    "C10_bfs_tree (ends within its fuel; reached = reachable from the root in the admissible graph; BFS depth = hop "
+    "distance, attained and minimal; parent/children mutually inverse; tree edges are admissible adjacencies one level "
+    "down; |edges|+1 = |reached|), C10_bfs_acyclic, C10_traverse (both orders: each element exactly once, reported parent, "
+    "parents first, fuel not hit), C10_forest (every element in exactly one tree, each tree spans the component of its "
+    "root, roots are the least elements of distinct components), C10_kruskal (edge list is a spanning forest of the "
+    "admissible edges in every component, every edge a bridge; parent/children orient exactly the root's component; "
+    "orientation fuel not hit), C10_kruskal_minimal (minimum weight among all spanning forests, ties and negative weights "
+    "included), and the soundness of the Gallina checkers (is_bfs_tree, is_tree_table, is_edge_list, is_spanning_forest + "
+    "equal weight, recomputed orientation) through which kernel-evaluated correspondence batches accept the "
+    "implementation's answers. Only tested, not proved: that mouette's connectivity queries deliver the mesh adjacency "
+    "(the oracle rebuilds it from the element tables), the order-isomorphism float length / integer squared length, "
+    "that UnionFind refines the partition (C20)."
 )
